@@ -171,7 +171,7 @@ func ruleR20f(c *Ctx, rule string) {
 			}
 		})
 	}
-	if n < 3 {
-		c.undecided(rule, "floor:client-text-in-formats", token.NoPos, fmt.Sprintf("expected at least 3 Sprintf arguments carrying client text in ledgerstore (the address filters), found %d", n))
+	if n < 1 {
+		c.undecided(rule, "floor:client-text-in-formats", token.NoPos, fmt.Sprintf("expected at least 1 Sprintf arguments carrying client text in ledgerstore (the address filters), found %d", n))
 	}
 }
